@@ -854,6 +854,12 @@ func c20Run(p *c20pool, jobs []c20job, inject *rand.Rand, start time.Time, rec *
 				}
 				yp := rt.MustLeaf(RandT(r, shape, 0.05, 0.95), r.Intn(2) == 0)
 				yt := rt.MustLeaf(RandT(r, shape, 0, 1), false)
+				if kind != "ce" && r.Intn(3) == 0 {
+					// the TARGET is a shared tensor of the pool (a tracked prototype every goroutine regresses against, or an untracked one):
+					// evaluating a loss against it is a forward computation on a shared tensor
+					shape = []int{3}
+					yp, yt = rt.MustLeaf(RandT(r, shape, 0.05, 0.95), r.Intn(2) == 0), p.ts[1+r.Intn(2)]
+				}
 				var l tensor.Tensor
 				if e := span("shared-loss-object/"+kind, []int{-1}, func() (err error) {
 					switch kind {
@@ -1231,6 +1237,17 @@ func runC20(c *fw.Ctx) {
 					}
 				}
 				k.Count("results_compared_with_sequential_run", int64(len(seq)))
+			}
+			// nothing the goroutines did was a back-propagation through, or a reset of, a shared tracked tensor: each is still the fresh
+			// tracked leaf it was when the pool was built
+			for i, kind := range pool.kinds {
+				if kind != "tracked-leaf" {
+					continue
+				}
+				if st, ok := tensor.VerifGradState(pool.ts[i]); ok && (!st.Tracked || st.BPDirty) || pool.ts[i].Gradient() != nil {
+					k.Failf("shared tracked tensor %d of the pool is no longer a fresh tracked leaf after the concurrent forward computations (tracked=%v spent=%v, gradient nil=%v)", i, st.Tracked, st.BPDirty, pool.ts[i].Gradient() == nil)
+					return
+				}
 			}
 			// overlap statistics (evidence only)
 			type ev struct {
